@@ -1,5 +1,5 @@
 From Coq Require Import List Ascii String Bool Arith. Import ListNotations.
-From E Require Import EditModel.
+From E Require Import EditModel EditDeep.
 Definition s (x : string) : str := list_ascii_of_string x.
 Inductive opk := OSet (segs : list str) (v : str) | ORm (segs : list str).
 Inductive exp := EOk (view : tree) | EKey (view : tree) | EVal (view : tree).   (* view after the call, also when it raised *)
@@ -20,7 +20,7 @@ Fixpoint run (st0 : st) (ops : list (opk * exp)) (i : nat) : option nat :=
   match ops with
   | [] => None
   | (o, e) :: rest =>
-      let '(st1, r) := match o with OSet sg v => m_set st0 sg (VAt v) | ORm sg => m_rm st0 sg end in
+      let '(st1, r) := match o with OSet sg v => set_deep st0 sg (VAt v) | ORm sg => rm_deep st0 sg end in
       let ok := match r, e with
                 | Ok _, EOk v => tree_eqb 1000 (view st1) v
                 | Err KeyErr, EKey v => tree_eqb 1000 (view st1) v
